@@ -42,7 +42,7 @@ TOL = 1e-11
 # slot domains
 POS = [0.0, 0.05, 0.7, 3.1]
 REAL = [-1.3, 0.0, 0.4, 2.2]
-RHO = [1e-3, 0.2, 1.7, 40.0]
+RHO = [1e-11, 1e-3, 0.2, 1.7, 40.0]  # 1e-11: below the 1e-10 floor of the semilocal-aware maps
 SIG = [0.0, 0.03, 1.1, 25.0]
 TAU = [0.02, 0.6, 9.0]
 POSS = [0.05, 0.7, 3.1]  # strictly positive (Omega: sqrt of inner term, n)
@@ -105,6 +105,17 @@ def _lattice(code, assign, shift=0.0):
     x[:] = filler[:, None]
     for slot, idx in enumerate(assign):
         x[idx] = [p[slot] for p in pts]
+    if code.startswith("SL") and code != "SLN" and len(set(assign)) == len(assign):
+        # the point below the density floor carries gradient / kinetic-energy values scaled with the density (sigma ~ n^(8/3),
+        # tau ~ n^(5/3)); an O(1) gradient at n = 1e-11 is not a density any basis set produces and only yields 1e30-sized
+        # reduced variables whose rounding error exceeds every tolerance
+        names = SPEC[code][0]
+        rho = x[assign[0]]
+        low = rho < 1e-6
+        for slot, idx in enumerate(assign[1:], start=1):
+            dom = SPEC[code][1][slot]
+            pw = 8.0 / 3 if dom is SIG else 5.0 / 3
+            x[idx] = np.where(low, x[idx] * (rho / 1e-3) ** pw, x[idx])
     return x
 
 
@@ -191,10 +202,16 @@ def run_map(case):
         num, tol = _deriv_numeric(m, x, code)
         want = num * dfdy
         evals += NRAW + 1
-        scale = 1.0 + np.abs(want).max()
+        # per sample point: the lattice mixes O(1) points with points at the density floor whose reduced variables are
+        # ~1e25; a global scale would blind the comparison at the ordinary points
+        scale = 1.0 + np.abs(want).max(0, keepdims=True)
+        excess = np.abs(got - want) / (tol * scale)
+        # values beyond 1e12 are compared to 1e-8 relative (complex powers of 1e-10 carry ~1e-10 relative rounding)
+        excess = np.where(np.abs(want) > 1e12, np.abs(got - want) / (1e-8 * np.abs(want)), excess)
         err = np.abs(got - want).max()
-        if not np.all(np.isfinite(got)) or err > tol * scale:
-            r, s = np.unravel_index(np.argmax(np.abs(got - want)), got.shape)
+        if not np.all(np.isfinite(got)) or excess.max() > 1:
+            r, s = np.unravel_index(np.argmax(excess), got.shape)
+            scale = float(scale[0, s])
             gtag = ";".join("%s=%s" % (k, params[k]) for k in sorted(params))
             fails.append({
                 "key": "map=%s;deriv-vs-value;%s" % (code, gtag),
